@@ -313,3 +313,184 @@ func TestVerif_C16(t *testing.T) {
 		mk(c16Opts{name: "one-session-lost-midway", n: 2, newServer: true, loseOne: true}, 1, 2),
 	})
 }
+
+// ---------------------------------------------------------------------------------------------------------
+// C17 — the session manager heals lost sessions and only those.
+
+type c17Opts struct {
+	name        string
+	n           int
+	lose        string // "server-session" (the server closes one session) | "server-down" (listener + sessions gone, socket removed, back after 2.5 s) | "none"
+	hotRestart  bool   // a completed hot restart first; then the old server goes away (its sessions must NOT be rebuilt)
+	closeSM     bool   // SessionManager.Close at any moment
+	traffic     bool
+}
+
+func (w *hrWorld) serverSessions(l *Listener) []*Session {
+	l.sessions.sessionMu.Lock()
+	defer l.sessions.sessionMu.Unlock()
+	return vrt.SortedKeys(l.sessions.data)
+}
+
+func c17Body(o c17Opts) func() {
+	return func() {
+		const rebuild = vrt.Second
+		w := newHRWorld(o.n, rebuild)
+		cbNewSessions := func(l *Listener) int { return len(w.serverSessions(l)) }
+		before := make([]*Session, o.n)
+		for i, p := range w.sm.pools {
+			before[i] = p.Session()
+		}
+		var ths []*vrt.Thread
+		var lostAt int64 = -1
+		callErrs, callOK, slow := 0, 0, 0
+		if o.hotRestart {
+			t := vrt.GoProc("admin", 2, func() {
+				w.newL = w.startListener(3, 'N')
+				if err := w.oldL.HotRestart(77); err != nil {
+					vrt.Failf("harness", "HotRestart: %v", err)
+				}
+				for !w.oldL.IsHotRestartDone() {
+					vrt.Sleep(100 * ms)
+				}
+			})
+			vrt.Quiet(true)
+			vrt.WaitThreads(t)
+			vrt.WaitIdle(vrt.Second)
+			vrt.Quiet(false)
+			for i, p := range w.sm.pools {
+				before[i] = p.Session()
+				if before[i].epochID != 77 {
+					vrt.Failf("harness", "hot restart did not complete in the setup phase")
+				}
+			}
+		}
+		switch o.lose {
+		case "server-session":
+			ths = append(ths, vrt.GoProc("lose", 2, func() {
+				vrt.AnyMoment()
+				ss := w.serverSessions(w.oldL)
+				if len(ss) > 0 {
+					lostAt = vrt.VNow()
+					ss[0].Close()
+				}
+			}))
+		case "server-down":
+			ths = append(ths, vrt.GoProc("server-down", 2, func() {
+				vrt.AnyMoment()
+				lostAt = vrt.VNow()
+				if !o.hotRestart {
+					os.Remove(w.path) // (after a hot restart the path belongs to the new server)
+				}
+				w.oldL.Close()
+			}))
+			if !o.hotRestart {
+				ths = append(ths, vrt.GoProc("server-back", 3, func() {
+					vrt.Point("wait-down", func() bool { return lostAt >= 0 })
+					vrt.Sleep(2500 * ms)
+					w.newL = w.startListener(3, 'N')
+				}))
+			}
+		}
+		if o.traffic {
+			ths = append(ths, vrt.GoProc("traffic", 1, func() {
+				for i := 0; i < 4; i++ {
+					t0 := vrt.VNow()
+					w.sm.count = 1
+					_, err := w.roundTrip(3 + i)
+					if err != nil {
+						callErrs++
+					} else {
+						callOK++
+					}
+					if vrt.VNow()-t0 > int64(4*vrt.Second) {
+						slow++
+					}
+					vrt.Sleep(400 * ms)
+				}
+			}))
+		}
+		if o.closeSM {
+			ths = append(ths, vrt.GoProc("sm-closer", 1, func() {
+				vrt.AnyMoment()
+				w.sm.Close()
+			}))
+		}
+		vrt.WaitThreads(ths...)
+		vrt.WaitIdle(6 * vrt.Second) // rebuild interval 1 s, server back after 2.5 s: everything has settled by now
+		if slow > 0 {
+			vrt.Failf("call-hangs", "%d calls took longer than 4 virtual seconds while a session was lost (they must fail, not hang)", slow)
+		}
+		if o.closeSM {
+			// closing the manager stops all of it: the watchers are gone and nothing is rebuilt any more
+			if n := w.sm.wg.Count(); n != 0 {
+				vrt.Failf("watchers-left", "%d watcher goroutines still registered after SessionManager.Close", n)
+			}
+			for i, p := range w.sm.pools {
+				if !p.Session().IsClosed() {
+					vrt.Failf("not-closed", "pool %d still holds an open session after SessionManager.Close", i)
+				}
+			}
+			vrt.Outcome("closed")
+			return
+		}
+		// healed: every pool holds an open session and a round trip through each pool works
+		var tags []byte
+		tt := vrt.GoProc("after", 1, func() {
+			for i := 0; i < o.n; i++ {
+				w.sm.count = uint64(i*sessionRoundRobinThreshold) + 1
+				tag, err := w.roundTrip(9)
+				if err != nil {
+					vrt.Failf("not-healed", "pool %d: round trip after the healing period failed: %v (session closed=%v)", i, err, w.sm.pools[i].Session().IsClosed())
+				}
+				tags = append(tags, tag)
+			}
+		})
+		vrt.WaitThreads(tt)
+		rebuilt := 0
+		for i, p := range w.sm.pools {
+			if p.Session() != before[i] {
+				rebuilt++
+			}
+		}
+		switch {
+		case o.hotRestart:
+			// the old server went away after the hand-over: the pools already live on the new server, nothing to rebuild,
+			// and the new server must have exactly one session per pool
+			if rebuilt != 0 {
+				vrt.Failf("rebuilt-twice", "%d pools were rebuilt although hot restart had already replaced their sessions", rebuilt)
+			}
+			if n := cbNewSessions(w.newL); n != o.n {
+				vrt.Failf("rebuilt-twice", "the new server holds %d sessions for %d pools", n, o.n)
+			}
+		case o.lose == "server-session":
+			if rebuilt != 1 {
+				vrt.Failf("wrong-pools-rebuilt", "one session was lost, %d pools were rebuilt", rebuilt)
+			}
+		case o.lose == "server-down":
+			if rebuilt != o.n {
+				vrt.Failf("wrong-pools-rebuilt", "the server went down, %d of %d pools were rebuilt", rebuilt, o.n)
+			}
+		case o.lose == "none":
+			if rebuilt != 0 {
+				vrt.Failf("wrong-pools-rebuilt", "nothing was lost, %d pools were rebuilt", rebuilt)
+			}
+		}
+		vrt.Outcome(fmt.Sprintf("tags=%s rebuilt=%d calls=%d/%d", string(tags), rebuilt, callOK, callOK+callErrs))
+	}
+}
+
+func TestVerif_C17(t *testing.T) {
+	mk := func(o c17Opts, b, bt int) bScenario {
+		return bScenario{Name: o.name, Bound: b, BoundT: bt, Body: c17Body(o), Live: true}
+	}
+	runBScenarios(t, "C17", []bScenario{
+		mk(c17Opts{name: "server-session-lost", n: 1, lose: "server-session", traffic: true}, 1, 2),
+		mk(c17Opts{name: "two-pools-one-lost", n: 2, lose: "server-session"}, 1, 2),
+		mk(c17Opts{name: "server-down-then-back", n: 1, lose: "server-down", traffic: true}, 1, 2),
+		mk(c17Opts{name: "nothing-lost", n: 2, lose: "none", traffic: true}, 1, 2),
+		mk(c17Opts{name: "old-server-gone-after-hot-restart", n: 2, lose: "server-down", hotRestart: true}, 1, 2),
+		mk(c17Opts{name: "close-manager-vs-loss", n: 1, lose: "server-session", closeSM: true}, 1, 2),
+		mk(c17Opts{name: "close-manager-idle", n: 2, lose: "none", closeSM: true, traffic: true}, 1, 2),
+	})
+}
